@@ -41,6 +41,7 @@ def run(chk: Check) -> None:
     )
     stamp = dt(2024, 1, 1, 12, 0, 0, 123456)
     frames: list[str] = []
+    rejected: list[tuple[str, str]] = []
     for i in range(N):
         fr = rt.gen_frame(rnd, codes)
         frames.append(fr)
@@ -69,12 +70,24 @@ def run(chk: Check) -> None:
             if str(p) != fr or p._rssi != rssi or p.dtm != stamp:
                 chk.violation("pkt.print:" + fr, f"Packet prints as {str(p)!r} rssi {p._rssi!r}", {"op": "packet", "frame": fr, "rssi": rssi})
         except exc.PacketInvalid:
-            chk.violation("pkt.reject:" + fr, f"well-formed frame rejected by Packet(): {fr!r}", {"op": "packet", "frame": fr})
+            # Packet() refuses frames whose lifespan cannot be computed (an array payload from a non-controller,
+            # a 1-byte 3220: the C01 repair).  That is a *semantic* rejection; it is legitimate exactly when the
+            # modelled receive path (Recv.frameRead, what C01's theorems are about) rejects the same frame.
+            chk.count("packet.rejected_semantic")
+            rejected.append((fr, rssi))
         except Exception as e:  # noqa: BLE001  (reception totality is property C01)
             chk.count("packet.other_exception(" + type(e).__name__ + ")")
         if i < 3:
             chk.sample({"frame": fr, "impl": out})
 
+    if rejected:
+        from ..common import Model
+
+        outs = Model().run(["recv.file\tTrue\t" + esc(f"{rssi} {fr}") for fr, rssi in rejected])
+        for (fr, rssi), o in zip(rejected, outs):
+            if o != "PacketInvalid":
+                chk.violation("pkt.reject:" + fr, f"well-formed frame rejected by Packet() but accepted by the model ({o!r}): {fr!r}",
+                              {"op": "packet", "frame": fr, "rssi": rssi, "model": o})
     # --- near misses: the shape recogniser vs COMMAND_REGEX vs the generated regex AST, and parse outcomes
     for i in range(N):
         s = rt.mutate(rnd, frames[i % len(frames)])
